@@ -3,9 +3,13 @@ package main
 // fmt and math/big models.
 
 import (
+	"encoding/json"
 	"fmt"
 	"go/types"
 	"math/big"
+	"reflect"
+	"sort"
+	"strconv"
 	"strings"
 
 	"golang.org/x/tools/go/ssa"
@@ -639,4 +643,221 @@ func (ex *Exec) bigString(x *Term) *Str {
 		bs = append(bs, ex.byteC('-'))
 	}
 	return ex.strB(append(bs, digits...))
+}
+
+// ---------- encoding/json.Unmarshal: native bridge (concrete input) ----------
+
+func init() {
+	reg("encoding/json.Unmarshal", func(ex *Exec, _ *frame, fn *ssa.Function, a []Value) Value {
+		ex.used("encoding/json.Unmarshal -> native decoder on concrete bytes + reflective fill")
+		raw := ex.concStr(ex.bytesToStr(a[0]), "json input")
+		iv := a[1].(IfaceV)
+		pt, ok := iv.t.Underlying().(*types.Pointer)
+		if !ok {
+			return ex.mkError("json: Unmarshal(non-pointer)")
+		}
+		var nat any
+		dec := json.NewDecoder(strings.NewReader(raw))
+		dec.UseNumber()
+		if err := dec.Decode(&nat); err != nil {
+			return ex.mkError(err.Error())
+		}
+		p := iv.v.(*Value)
+		v, err := ex.jsonFill(pt.Elem(), nat, *p)
+		if err != "" {
+			return ex.mkError(err)
+		}
+		*p = v
+		return IfaceV{}
+	})
+}
+
+func jsonFieldName(f *types.Var, tag string) (string, bool) {
+	st := reflect.StructTag(tag)
+	j, ok := st.Lookup("json")
+	if ok {
+		name := strings.Split(j, ",")[0]
+		if name == "-" {
+			return "", false
+		}
+		if name != "" {
+			return name, true
+		}
+	}
+	return f.Name(), f.Exported()
+}
+
+func (ex *Exec) jsonFill(t types.Type, nat any, cur Value) (Value, string) {
+	if nat == nil {
+		return cur, ""
+	}
+	switch u := t.Underlying().(type) {
+	case *types.Struct:
+		m, ok := nat.(map[string]any)
+		if !ok {
+			return cur, "json: cannot unmarshal non-object into struct " + t.String()
+		}
+		st := cur.(StructV)
+		for i := 0; i < u.NumFields(); i++ {
+			f := u.Field(i)
+			if f.Embedded() {
+				if _, isStruct := f.Type().Underlying().(*types.Struct); isStruct {
+					v, err := ex.jsonFill(f.Type(), nat, st[i])
+					if err != "" {
+						return cur, err
+					}
+					st[i] = v
+					continue
+				}
+			}
+			name, ok := jsonFieldName(f, u.Tag(i))
+			if !ok {
+				continue
+			}
+			var val any
+			found := false
+			for k, x := range m {
+				if k == name {
+					val, found = x, true
+					break
+				}
+			}
+			if !found {
+				for k, x := range m {
+					if strings.EqualFold(k, name) {
+						val, found = x, true
+						break
+					}
+				}
+			}
+			if !found {
+				continue
+			}
+			v, err := ex.jsonFill(f.Type(), val, st[i])
+			if err != "" {
+				return cur, err
+			}
+			st[i] = v
+		}
+		return st, ""
+	case *types.Basic:
+		switch {
+		case u.Info()&types.IsString != 0:
+			s, ok := nat.(string)
+			if !ok {
+				return cur, "json: cannot unmarshal non-string into string"
+			}
+			return ex.strC(s), ""
+		case u.Info()&types.IsBoolean != 0:
+			b, ok := nat.(bool)
+			if !ok {
+				return cur, "json: cannot unmarshal non-bool into bool"
+			}
+			return ex.mkBool(b), ""
+		case u.Info()&types.IsInteger != 0:
+			n, ok := nat.(json.Number)
+			if !ok {
+				return cur, "json: cannot unmarshal non-number into integer"
+			}
+			w := ex.intWidth(u)
+			if isSigned(u) {
+				i, err := strconv.ParseInt(string(n), 10, w)
+				if err != nil {
+					return cur, "json: cannot unmarshal number " + string(n) + " into Go value of type " + t.String()
+				}
+				return ex.ts.BVConst(uint64(i), w), ""
+			}
+			i, err := strconv.ParseUint(string(n), 10, w)
+			if err != nil {
+				return cur, "json: cannot unmarshal number " + string(n) + " into Go value of type " + t.String()
+			}
+			return ex.ts.BVConst(i, w), ""
+		case u.Info()&types.IsFloat != 0:
+			n, ok := nat.(json.Number)
+			if !ok {
+				return cur, "json: cannot unmarshal non-number into float"
+			}
+			f, _ := n.Float64()
+			return f, ""
+		}
+	case *types.Pointer:
+		p := new(Value)
+		*p = ex.zero(u.Elem())
+		v, err := ex.jsonFill(u.Elem(), nat, *p)
+		if err != "" {
+			return cur, err
+		}
+		*p = v
+		return p, ""
+	case *types.Slice:
+		arr, ok := nat.([]any)
+		if !ok {
+			return cur, "json: cannot unmarshal non-array into slice"
+		}
+		out := make([]Value, len(arr))
+		for i, x := range arr {
+			v, err := ex.jsonFill(u.Elem(), x, ex.zero(u.Elem()))
+			if err != "" {
+				return cur, err
+			}
+			out[i] = v
+		}
+		return SliceV{out}, ""
+	case *types.Interface:
+		return ex.jsonAny(nat), ""
+	case *types.Map:
+		m, ok := nat.(map[string]any)
+		if !ok {
+			return cur, "json: cannot unmarshal non-object into map"
+		}
+		mv := ex.newMap(u.Key(), u.Elem())
+		keys := make([]string, 0, len(m))
+		for k := range m {
+			keys = append(keys, k)
+		}
+		sort.Strings(keys)
+		for _, k := range keys {
+			v, err := ex.jsonFill(u.Elem(), m[k], ex.zero(u.Elem()))
+			if err != "" {
+				return cur, err
+			}
+			ex.mapSet(mv, ex.strC(k), v)
+		}
+		return mv, ""
+	}
+	panic(unsupported("json.Unmarshal into " + t.String()))
+}
+
+// jsonAny converts a decoded JSON value into the Go value json.Unmarshal would store in an interface{}.
+func (ex *Exec) jsonAny(nat any) Value {
+	anyT := types.NewInterfaceType(nil, nil)
+	switch x := nat.(type) {
+	case nil:
+		return IfaceV{}
+	case bool:
+		return IfaceV{t: types.Typ[types.Bool], v: ex.mkBool(x)}
+	case string:
+		return IfaceV{t: types.Typ[types.String], v: ex.strC(x)}
+	case json.Number:
+		f, _ := x.Float64()
+		return IfaceV{t: types.Typ[types.Float64], v: f}
+	case []any:
+		out := make([]Value, len(x))
+		for i, e := range x {
+			out[i] = ex.jsonAny(e)
+		}
+		return IfaceV{t: types.NewSlice(anyT), v: SliceV{out}}
+	case map[string]any:
+		mv := ex.newMap(types.Typ[types.String], anyT)
+		keys := make([]string, 0, len(x))
+		for k := range x {
+			keys = append(keys, k)
+		}
+		sort.Strings(keys)
+		for _, k := range keys {
+			ex.mapSet(mv, ex.strC(k), ex.jsonAny(x[k]))
+		}
+		return IfaceV{t: types.NewMap(types.Typ[types.String], anyT), v: mv}
+	}
+	panic(unsupported("jsonAny"))
 }
